@@ -236,6 +236,77 @@ impl Property for C08 {
                 }
             }
         }
+        // faults that come late: behind n attributes of one tag, behind n sibling elements (sizes around plausible limits)
+        {
+            let mut n_runs = 0u64;
+            for n in [1usize, 15, 16, 17, 31, 32, 33, 63, 64, 65, 127, 128, 129, 255, 256, 257, 300, 1023, 1024, 1025] {
+                let attrs: String = (0..n).map(|i| format!(" k{}=\"\"", i)).collect();
+                let kids: String = (0..n).map(|i| format!("<c{}/>", i)).collect();
+                let same_kids: String = "<c/>".repeat(n);
+                let mut inputs: Vec<Vec<u8>> = Vec::new();
+                for fault in [&b" k0=\"\""[..], format!(" k{}=''", n - 1).as_bytes(), b" x=1", b" x", b" \xffk=\"\"", b" x=\"1", b""] {
+                    // the fault is the last attribute of a self-closed root, of a start tag, and of a child behind n siblings
+                    for (head, tail) in [("<a", &b"/>"[..]), ("<a", b"><b/></a>")] {
+                        let mut v = head.as_bytes().to_vec();
+                        v.extend_from_slice(attrs.as_bytes());
+                        v.extend_from_slice(fault);
+                        v.extend_from_slice(tail);
+                        inputs.push(v);
+                    }
+                    for k in [&kids, &same_kids] {
+                        let mut v = format!("<a>{}<z k=\"1\"", k).into_bytes();
+                        v.extend_from_slice(fault);
+                        v.extend_from_slice(b"/></a>");
+                        inputs.push(v);
+                    }
+                }
+                for k in [&kids, &same_kids] {
+                    inputs.push(format!("<a>{}</b></a>", k).into_bytes());
+                    inputs.push(format!("<a>{}<b></a>", k).into_bytes());
+                    let mut v = format!("<a>{}<t>", k).into_bytes();
+                    v.extend_from_slice(b"\xff</t></a>");
+                    inputs.push(v);
+                    let mut v = format!("<a>{}<", k).into_bytes();
+                    v.extend_from_slice(b"\xff/></a>");
+                    inputs.push(v);
+                    inputs.push(format!("<a>{}", k).into_bytes());
+                }
+                for input in &inputs {
+                    for base in [None, Some(&b"<a/>"[..])] {
+                        n_runs += 1;
+                        let (what, res, exp, initial) = match base {
+                            None => {
+                                let (r, e) = run_one(input, Kind::Slice, None);
+                                ("into_struct", r, e, true)
+                            }
+                            Some(b) => {
+                                let (r0, _) = run_one(b, Kind::Slice, None);
+                                let b0 = match r0 {
+                                    Ok(x) => x,
+                                    Err(_) => continue,
+                                };
+                                let (r, e) = run_one(input, Kind::Slice, Some(b0));
+                                ("extend_struct", r, e, false)
+                            }
+                        };
+                        if let Err(e) = judge(&res, &exp, initial) {
+                            let hist: Vec<String> = match base {
+                                None => vec![crate::runner::hex(input)],
+                                Some(b) => vec![crate::runner::hex(b), crate::runner::hex(input)],
+                            };
+                            let shown: String = String::from_utf8_lossy(input).chars().take(60).collect();
+                            return Err((
+                                Failure::new(format!("late fault behind n={} attributes / siblings: {} on `{}...` ({} bytes): {}", n, what, shown, input.len(), e)),
+                                json!({"history_hex": hist}),
+                            ));
+                        }
+                    }
+                }
+            }
+            st.evaluations += n_runs;
+            st.nontrivial_enumerated += n_runs;
+            st.add("late_fault_family", n_runs);
+        }
         if tier == Tier::Thorough {
             let runs = std::env::var("XSGV_FUZZ_RUNS").ok().and_then(|s| s.parse().ok()).unwrap_or(120_000u64);
             let c = crate::fuzzrun::Campaign { target: "fz_bytes", runs_per_worker: runs, workers: 16, seed: seed ^ 0xc08, max_len: 4096, seeds: crate::props::c07::fuzz_seeds(seed ^ 0xc08) };
@@ -264,7 +335,7 @@ impl Property for C08 {
         check_default(body).map_err(Failure::new)
     }
     fn rule(&self) -> String {
-        "byte strings decoded from tapes: byte-level mutations (overwrite, insert dictionary token, delete, duplicate, truncate, splice, swap, insert raw byte) of generated valid documents, raw bytes with tokens, nesting chains, tiny fragments; fed as into_struct(B1), extend_struct(B2), ... through Reader::from_reader(&[u8]), Reader::from_str (UTF-8 inputs) and BufReader capacities 1..4096, all with the default configuration. A second reader of the same kind over the same bytes is stepped independently; the first of {reader error, non-UTF-8 element name, attribute error, non-UTF-8 attribute key, non-UTF-8 text/CDATA} in stream order fixes the expected verdict (exact variant, Debug-equal inner error, position), else Ok / ParsingError for an element-less initial parse. Small-scope exhaustive part: all histories parse(I1), extend(I2) over 834 inputs (up to three top-level fragments from nine, plus damaged pieces). Non-trivial = the reader produced three or more events before the end or the error; distinct by hash of the input bytes.".into()
+        "byte strings decoded from tapes: byte-level mutations (overwrite, insert dictionary token, delete, duplicate, truncate, splice, swap, insert raw byte) of generated valid documents, raw bytes with tokens, nesting chains, tiny fragments; fed as into_struct(B1), extend_struct(B2), ... through Reader::from_reader(&[u8]), Reader::from_str (UTF-8 inputs) and BufReader capacities 1..4096, all with the default configuration. A second reader of the same kind over the same bytes is stepped independently; the first of {reader error, non-UTF-8 element name, attribute error, non-UTF-8 attribute key, non-UTF-8 text/CDATA} in stream order fixes the expected verdict (exact variant, Debug-equal inner error, position), else Ok / ParsingError for an element-less initial parse. A late-fault family puts each kind of fault (duplicate of the first or the last attribute, unquoted value, missing `=`, non-UTF-8 key, unterminated value, none) behind n attributes of a tag and behind n sibling elements, and a stray end tag, a missing end tag, non-UTF-8 text, a non-UTF-8 name and a truncation behind n siblings, n around 16, 32, 64, 128, 256, 300 and 1024, as parse and as extension. Small-scope exhaustive part: all histories parse(I1), extend(I2) over 834 inputs (up to three top-level fragments from nine, plus damaged pieces). Non-trivial = the reader produced three or more events before the end or the error; distinct by hash of the input bytes.".into()
     }
     fn assumptions(&self) -> Vec<String> {
         vec![
